@@ -141,6 +141,8 @@ func (fx *FnExec) staticCall(st *State, fn *ssa.Function, args, bindings []*Term
 		if con.Inline {
 			return fx.inline(st, fn, con, args, bindings, p)
 		}
+		fx.callBindings = bindings
+		defer func() { fx.callBindings = nil }()
 		return fx.applyContract(st, fn, con, args, p)
 	}
 	full := fn.String()
@@ -253,6 +255,14 @@ func resultNames(sig *types.Signature) []string {
 // contractEnv builds the environment for a callee contract at a call site.
 func (fx *FnExec) contractEnv(fn *ssa.Function, con *Contract, args []*Term, pre, post *State, results []*Term) *SpecEnv {
 	env := &SpecEnv{fx: fx, pkg: con.Pkg, vars: map[string]specVal{}, st: post, old: pre, where: "contract of " + fn.Name()}
+	if fx.callBindings != nil {
+		env.fvs = map[string]fvBinding{}
+		for i, fv := range fn.FreeVars {
+			if i < len(fx.callBindings) {
+				env.fvs[fv.Name()] = fvBinding{fx.callBindings[i], fv.Type().(*types.Pointer).Elem()}
+			}
+		}
+	}
 	if con.Pkg == "" && fn.Pkg != nil {
 		env.pkg = fn.Pkg.Pkg.Path()
 	}
@@ -335,6 +345,11 @@ func (fx *FnExec) havocAssigns(st *State, envPre *SpecEnv, assigns []*Clause, fn
 			v := fx.c.Fresh("hvf_"+loc.si.st.Field(loc.fidx).Name(), fx.e.sortOf(ft))
 			fx.assumeType(st, v, ft)
 			fx.writeField(st, loc.obj, loc.si, loc.fidx, v)
+		case loc.refKind == "pcell" && loc.ptype != nil:
+			hn, hs := fx.pheapName(loc.ptype)
+			v := fx.c.Fresh("hvp", fx.e.sortOf(loc.ptype))
+			fx.assumeType(st, v, loc.ptype)
+			fx.heapSet(st, hn, Store(fx.heapGet(st, hn, hs), loc.ref, v))
 		case loc.refKind == "elem":
 			fx.fail("assigns elems(): element type needed; use heap component form")
 		default:
@@ -907,7 +922,17 @@ func (fx *FnExec) callMods(ci ssa.CallInstruction, ms *modSet) {
 	ms.heaps["alloc"] = SInt
 	if cc.IsInvoke() {
 		if con := fx.ifaceContract(cc); con != nil {
-			if len(con.Common.Assigns) > 0 {
+			for _, a := range con.Common.Assigns {
+				// ghost state of the receiver: the whole ghost component may change
+				if a.Expr.Kind == "call" && a.Expr.Name == "ghost" {
+					if sf := fx.e.findSpec(con.Pkg, a.Expr.Args[0].String()); sf != nil && sf.Ghost {
+						if rt, err := fx.e.resolveType(sf.Pkg, sf.Ret); err == nil {
+							ms.heaps["G_"+sf.Name] = ArrSort(SInt, fx.e.sortOf(rt))
+							ms.full["G_"+sf.Name] = true
+							continue
+						}
+					}
+				}
 				ms.opaque = true // conservatively
 			}
 			return
@@ -978,10 +1003,44 @@ func (fx *FnExec) funcMods(fn *ssa.Function, ms *modSet, depth int) {
 			env.vars[p.Name()] = specVal{fx.c.Const("modp_"+p.Name(), fx.e.sortOf(p.Type())), p.Type()}
 		}
 		for _, a := range con.Common.Assigns {
+			// a captured variable of the callee: the corresponding heap-allocated local of this function
+			if a.Expr.Kind == "ident" {
+				handled := false
+				for _, fv := range fn.FreeVars {
+					if fv.Name() != a.Expr.Name {
+						continue
+					}
+					et := fv.Type().(*types.Pointer).Elem()
+					hn, hs := fx.pheapName(et)
+					ms.heaps[hn] = hs
+					var cell *ssa.Alloc
+					for _, b := range fx.fn.Blocks {
+						for _, ins := range b.Instrs {
+							if al, ok := ins.(*ssa.Alloc); ok && al.Heap && al.Comment == fv.Name() {
+								cell = al
+							}
+						}
+					}
+					if cell != nil && ms.sites != nil {
+						ms.sites[hn] = append(ms.sites[hn], cell)
+					} else if ms.full != nil {
+						ms.full[hn] = true
+					}
+					handled = true
+				}
+				if handled {
+					continue
+				}
+			}
 			loc := env.assignLoc(a.Expr)
 			switch {
 			case loc.si != nil:
 				ms.heaps[fieldHeapName(loc.si, loc.fidx)] = ArrSort(SInt, fx.fieldSort(loc.si, loc.fidx))
+			case loc.whole != "":
+				ms.heaps[loc.whole] = loc.gsort
+				if ms.full != nil {
+					ms.full[loc.whole] = true
+				}
 			}
 		}
 		return
